@@ -79,7 +79,10 @@ func (o *Obligation) scriptTextG(withModel, ground bool) string {
 		b.WriteByte('\n')
 	}
 	if o.Kind == "cover" {
-		// satisfiability of the assumptions so far
+		// satisfiability of the assumptions so far (and of the path to the site, for a site cover)
+		if o.PC != "" && o.PC != "true" {
+			fmt.Fprintf(&b, "(assert %s)\n", o.PC)
+		}
 		b.WriteString("(check-sat)\n")
 		return b.String()
 	}
@@ -212,6 +215,12 @@ func solveAll(obls []*Obligation, tier string, par int, dumpDir string) map[*Obl
 			res := runSolver(solvers[0], script, quickT)
 			release(1)
 			ground := ""
+			if o.Site {
+				mu.Lock()
+				out[o] = res
+				mu.Unlock()
+				return
+			}
 			if res.Status != "unsat" && res.Status != "sat" && o.Kind != "cover" && o.hasQuantLines() {
 				ground = o.scriptTextG(false, true)
 			}
